@@ -35,6 +35,9 @@ pub enum Family {
     SemChain,
     /// async tasks, events, join/abort/detach
     Async,
+    /// async tasks whose futures block in the middle of a poll (nested block_on through a contended mutex,
+    /// Task::block through a channel recv) while their waker is registered with an event
+    AsyncBlock,
     /// thread lifecycle: nested spawns, joins, scoped threads, thread-locals with destructors, lazy statics
     Threads,
     /// threads: a bit of everything (no async)
@@ -55,6 +58,7 @@ pub const ALL_FAMILIES: &[Family] = &[
     Family::SemAsync,
     Family::SemChain,
     Family::Async,
+    Family::AsyncBlock,
     Family::Threads,
     Family::Mixed,
     Family::All,
@@ -199,6 +203,8 @@ enum K {
     Lazy,
     StaticOnce,
     Label,
+    EvWaitLock,
+    EvWaitRecv,
 }
 
 fn menu(cfg: &GenCfg) -> Vec<K> {
@@ -216,7 +222,8 @@ fn menu(cfg: &GenCfg) -> Vec<K> {
         Family::Sem => vec![Acquire, Acquire, Acquire, TryAcquire, TryAcquire, Release, Release, Release, Close, Avail, ALoad, AStore],
         Family::SemAsync => vec![Acquire, Acquire, TryAcquire, Release, Release, Release, Close, Avail, AcqStart, AcqStart, AcqStart, AcqFinish, AcqFinish, AcqDrop, AcqDrop, Yield],
         Family::SemChain => vec![AcqStart, AcqStart, AcqStart, AcqStart, AcqFinish, AcqFinish, AcqDrop, AcqDrop, Acquire, TryAcquire, Release, Release],
-        Family::Async => vec![EvWait, EvWait, EvWait, EvSet, EvSet, EvSet, EvWake, Yield, Yield, Abort, Abort, DropHandle, IsFinished, IsFinished, ALoad, AStore, Lock, Unlock],
+        Family::Async => vec![EvWait, EvWait, EvWait, EvSet, EvSet, EvSet, EvWake, Yield, Yield, Abort, Abort, DropHandle, IsFinished, IsFinished, ALoad, AStore, Lock, Unlock, Park, Unpark],
+        Family::AsyncBlock => vec![EvWaitLock, EvWaitLock, EvWaitRecv, EvWaitRecv, EvSet, EvSet, EvSet, EvWake, Lock, Lock, Unlock, Send, Send, Send, Yield],
         Family::Threads => vec![Tls, Tls, Tls, Tls, Lazy, StaticOnce, Label, Yield, Yield, ALoad, AStore, AFetchAdd, Lock, Unlock, MAdd],
         Family::Mixed => vec![
             Lock, TryLock, Unlock, MAdd, MGet, Read, Write, RwUnlock, RwGet, ALoad, AStore, AFetchAdd, ACas, CvWait, NotifyOne, NotifyAll, MSet, BWait, CallOnce, OnceDone, Send, Send, TrySend, Recv,
@@ -253,7 +260,7 @@ fn menu(cfg: &GenCfg) -> Vec<K> {
 }
 
 fn allows_async(f: Family) -> bool {
-    matches!(f, Family::SemAsync | Family::SemChain | Family::Async | Family::All)
+    matches!(f, Family::SemAsync | Family::SemChain | Family::Async | Family::AsyncBlock | Family::All)
 }
 
 /// Statistics of the fix-up pass (how often a known-finding shape was rewritten)
@@ -558,6 +565,25 @@ pub fn build(raw: &RawProg, cfg: &GenCfg) -> (Prog, FixStats) {
                 }
                 K::Assert => ops.push(Op::AssertLast((r.extra % 4) as i64)),
                 K::Reset => ops.push(Op::ResetSteps),
+                K::EvWaitLock => {
+                    let m = idx(r.obj, NM);
+                    if is_async && !held_m[m] {
+                        ops.push(Op::EvWaitThen(r.val as usize % NE, true, m));
+                    } else {
+                        ops.push(Op::EvSet(r.val as usize % NE));
+                    }
+                }
+                K::EvWaitRecv => {
+                    // channel 1.. are candidates; the receiver must be owned by this task and must not be a rendezvous channel
+                    let c = idx(r.obj, chans.len());
+                    let ok = is_async && !matches!(chans[c], ChanKind::Bounded(0)) && (rx_owner[c].is_none() || rx_owner[c] == Some(ti));
+                    if ok {
+                        rx_owner[c] = Some(ti);
+                        ops.push(Op::EvWaitThen(r.val as usize % NE, false, c));
+                    } else {
+                        ops.push(Op::EvSet(r.val as usize % NE));
+                    }
+                }
                 K::Tls => ops.push(Op::Tls(r.obj as usize % 3)),
                 K::Lazy => ops.push(Op::Lazy(r.obj as usize % 2)),
                 K::StaticOnce => ops.push(Op::StaticOnce),
